@@ -7,9 +7,11 @@ T = "paramiko.transport.Transport."
 TARGETS = [C + f for f in ("_send", "recv", "recv_stderr", "_feed_extended", "close", "shutdown", "_request_failed", "_handle_close")]
 TARGETS += [(T + "_send_user_message", "gate", {})]
 REPLAY = {"*": "c11.replay_rekey_gate", "_send_user_message": "c11.inflight_request_during_exchange",
-          "_parse_newkeys": "c11.inflight_request_during_exchange"}
+          "_parse_newkeys": "c11.inflight_request_during_exchange", "ungated_send": "c11.inflight_transport_handled_requests"}
 BOUNDED = [("c11.inflight_request_during_exchange", "a channel request wanting a reply in flight towards the side that started a "
             "re-exchange (either side, link latency 0.3 s): the exchange completes, the session stays up, data flows afterwards"),
+           ("c11.inflight_transport_handled_requests", "a global request wanting a reply / a channel open in flight towards the side that "
+            "started a re-exchange: no connection-layer reply leaves before NEWKEYS, the session stays up, the open is answered"),
            ("c11.keepalive_due_during_exchange", "a keepalive falling due while the peer's NEWKEYS is held back 1.2 s, for a "
             "re-exchange started by the byte threshold, by the client and by the server", "thorough")]
 
@@ -36,6 +38,44 @@ def setup(E):
         "nothing_stays_behind_to_be_sent_twice": "len(self._held_user_messages) == 0"}))
 
 
+def lemmas(E):
+    """structural, over the real AST of Transport: the ungated Transport._send_message is called only by the gate itself
+    (_send_user_message, and _parse_newkeys flushing what was held back), by the key exchange's own messages (_send_kex_init,
+    _activate_outbound: NEWKEYS / EXT_INFO), by ensure_session (SERVICE_REQUEST, before any connection-layer traffic) and by the
+    run loop for MSG_UNIMPLEMENTED (a transport-layer message) - every other handler of the transport, whose replies are
+    connection-layer messages (REQUEST_SUCCESS / FAILURE, CHANNEL_OPEN_CONFIRMATION / FAILURE), goes through the gate, which
+    holds a reply back while an exchange is under way"""
+    import ast
+    import z3
+    out = []
+    allowed = {"_send_user_message", "_parse_newkeys", "_send_kex_init", "_activate_outbound", "ensure_session"}
+    found = 0
+    nth = {}
+    for qn, fi in sorted(E.src.funcs.items()):
+        if "::" in qn or not qn.startswith("paramiko.transport.") or "Transport." not in qn:
+            continue
+        fname = qn.rsplit(".", 1)[1]
+        # statement lists, to look at what is built right before a call in the run loop
+        for n in ast.walk(fi.node):
+            for fld in ("body", "orelse", "finalbody"):
+                blk = getattr(n, fld, None)
+                if not (isinstance(blk, list) and blk and isinstance(blk[0], ast.stmt)):
+                    continue
+                for k, st in enumerate(blk):
+                    if not (isinstance(st, ast.Expr) and isinstance(st.value, ast.Call) and isinstance(st.value.func, ast.Attribute)
+                            and st.value.func.attr == "_send_message" and isinstance(st.value.func.value, ast.Name)
+                            and st.value.func.value.id == "self"):
+                        continue
+                    found += 1
+                    ok = fname in allowed
+                    if fname == "run":
+                        ok = any("cMSG_UNIMPLEMENTED" in ast.unparse(p) for p in blk[:k])
+                    nth[qn] = nth.get(qn, 0) + 1
+                    out.append(("structure::ungated_send_only_for_transport_layer_messages(%s #%d)" % (qn, nth[qn]), [], z3.BoolVal(ok)))
+    out.append(("structure::ungated_sends_found", [], z3.BoolVal(found >= 4)))
+    return out
+
+
 CLAIMED = True
 LEVEL_TEXT = ("Proof of the two safety clauses the re-exchange relies on, on the real AST: (1) every hand-over of a "
               "connection-layer message to Transport._send_user_message in Channel._send, recv, recv_stderr, _feed_extended, "
@@ -50,10 +90,11 @@ LEVEL_TEXT = ("Proof of the two safety clauses the re-exchange relies on, on the
               "lock, before clear_to_send is set, and leaves none behind. Two native scenarios over a latency-controlled link "
               "(bounded, labelled) exercise the whole: a request wanting a reply in flight towards the side that started the "
               "exchange, and a keepalive due while the peer's NEWKEYS is delayed.")
-LEVEL_NOTE = ("NOT decided: that a transport emits only transport-layer messages between its KEXINIT and its NEWKEYS for "
-              "replies generated ON the transport thread (handlers such as _parse_global_request / _parse_channel_open call "
-              "_send_message directly - a typestate obligation on about 20 call sites that the pinned tree does not satisfy "
-              "by design), that the exchange completes, and that queued traffic is delivered afterwards (liveness). The "
+LEVEL_NOTE = ("'Emits only transport-layer and key-exchange messages between its KEXINIT and its NEWKEYS' is decided in this form: "
+              "every connection-layer message passes the gate (structural obligation over the call sites of the ungated "
+              "_send_message in Transport, plus the gate's own contract); the authentication layer's messages (AuthHandler calls "
+              "_send_message directly) are outside this property's statement and not covered. NOT decided as a whole: that the "
+              "exchange completes and that queued traffic is delivered afterwards (liveness) - only the per-call half above. The "
               "other channel methods that send requests take no lock at all. Together with C22's known finding this shows "
               "the trade-off the code makes: data leaves the lock before it reaches the transport.")
 TECHNIQUE = "deductive: call-site preconditions over ghost lock state and event state on the real AST, z3"
